@@ -56,6 +56,14 @@ Theorem C18_can_split_stays_inside_isolating : forall s doc pos depth r,
 Proof. exact can_split_not_across_isolating. Qed.
 Print Assumptions C18_can_split_stays_inside_isolating.
 
+(* ... and so is every node a split with types_after cuts, whatever types the split-off parts are to get *)
+Theorem C18_can_split_with_types_stays_inside_isolating : forall s doc pos depth ta r,
+  can_split_ta s doc pos depth ta = Ok true -> resolve s doc pos = Ok r ->
+  depth <= rp_depth r /\
+  forall k, rp_depth r - depth < k -> k <= rp_depth r -> exists n, rp_node r k = Ok n /\ isolating s n = false.
+Proof. exact can_split_ta_not_across_isolating. Qed.
+Print Assumptions C18_can_split_with_types_stays_inside_isolating.
+
 (* covered_depths(from, to): a depth the range may be expanded to lies below no isolating ancestor of either end:
    the ancestors of both ends at depths d .. min(depth) are all non-isolating, so [start(d), end(d)] and
    [before(d), after(d)] stay inside the innermost isolating node holding both ends *)
